@@ -4,7 +4,7 @@ from ..sampler_rules import (rule_L1_sampler, rule_L5, rule_L1d_transition, rule
 from ..pathrules import rule_T3, rule_T8i
 from ..agree import rule_A2_A6, rule_Q3
 from ..lockstep import rule_derived
-from ..persist import rule_P4_sampler
+from ..persist import rule_P4_sampler_subset
 from ..sampler_rules import SamplerTracker, G_SHELL
 
 LEVEL_TEXT = ('Static lockstep, dirty=>recompute, proposal-accounting and sibling-agreement '
@@ -27,7 +27,9 @@ def run(ctx):
     rule_L5(ctx)
     # ... also for a sampler resumed from any checkpoint: statistics of all shells are
     # rewritten together with the samples they summarise after every batch
-    rule_P4_sampler(ctx)
+    rule_P4_sampler_subset(ctx, ('points', 'log_l', 'blobs', 'shell_t', 'bound', 'pop_shell', 'add_bound', 'first-batch',
+                            'update-shell', 'batch-checkpointed', 'optional-init') + ('shell_', '_discard_exploration', 'explored', 'discard_explora'),
+                           'the stored rows and the per-shell statistics')
     # the formulas: exact linear-form algebra in the log domain
     rule_E_shell(ctx)
     ctx.floor('L1', 10, 'member lockstep verdicts')
